@@ -1145,17 +1145,18 @@ def c18_rules(ctx):
     # ---- R7 domains are read after the dataset's index along the dimension was fixed
     r7 = ctx.rule("C18.R7", "init_mapped_dim records the dimension's coordinates after every re-indexing (sel(order), dropna) of the dataset along it", floor=1)
     g = build_cfg(imd.node)
-    stores = [n for n in g.nodes if n.kind == "stmt" and isinstance(n.ast, ast.Assign) and norm(n.ast.targets[0]) == "self.domains[name]"]
+    DIM, NEW, PN = _imd_names(imd)
+    stores = [n for n in g.nodes if n.kind == "stmt" and isinstance(n.ast, ast.Assign) and norm(n.ast.targets[0]) == "self.domains[%s]" % PN]
     need(len(stores) == 1, "anchor lost: self.domains[name] assignment")
-    got = sym_expand(ctx, imd, stores[0].ast.value, {"dim": NOTNONE})
+    got = sym_expand(ctx, imd, stores[0].ast.value, {DIM: NOTNONE})
     # the statement at which the coordinate values are actually read
     R = stores[0]
     if isinstance(R.ast.value, ast.Name):
         src = [n for n in g.nodes if n.kind == "stmt" and isinstance(n.ast, ast.Assign) and norm(n.ast.targets[0]) == R.ast.value.id]
         need(len(src) == 1, "idiom changed: alias of the coordinate values in init_mapped_dim")
         R = src[0]
-    if got != "self.ds[dim].values":
-        if "self.ds" in got or "dim" in got or "order" in got:
+    if got != "self.ds[%s].values" % DIM:
+        if "self.ds" in got or DIM in got or "order" in got:
             r7.bad(ctx.finding("C18.R7", imd, stores[0].ast, "domains[name] is `%s`, not the dataset's current coordinate values" % got, construct="domains-source"), "domains source")
         else:
             raise AnalysisError("idiom changed: domains[name] = %s" % got)
@@ -1168,8 +1169,8 @@ def c18_rules(ctx):
         r7.ok("sel(order) and dropna both complete before domains[name] is read")
     else:
         raise AnalysisError("idiom changed: init_mapped_dim re-indexing statements (%d found)" % len(rebinds))
-    sz = [n for n in g.nodes if n.kind == "stmt" and isinstance(n.ast, ast.Assign) and norm(n.ast.targets[0]) == "self.sizes[name]" and "domains" in norm(n.ast.value)]
-    if sz and norm(sz[0].ast.value) == "len(self.domains[name])":
+    sz = [n for n in g.nodes if n.kind == "stmt" and isinstance(n.ast, ast.Assign) and norm(n.ast.targets[0]) == "self.sizes[%s]" % PN and "domains" in norm(n.ast.value)]
+    if sz and norm(sz[0].ast.value) == "len(self.domains[%s])" % PN:
         r7.ok("sizes[name] = len(domains[name])")
 
 
@@ -1478,6 +1479,40 @@ def _exp_local(fi, e, depth=0):
     return norm(R().visit(e2))
 
 
+def _imd_names(imd):
+    """(local holding the property's value, local holding the fused name, name of the property parameter) of init_mapped_dim"""
+    need(len(imd.positional) >= 2, "idiom changed: init_mapped_dim signature")
+    PN = imd.positional[1]
+
+    def through_alias(v):
+        hops = 0
+        while isinstance(v, ast.Name) and hops < 3:
+            d = single_def(imd, v.id)
+            if d is None:
+                break
+            v = d[1]
+            hops += 1
+        return v
+    nodes = sorted((n for n in walk_shallow(imd.node) if isinstance(n, ast.stmt)), key=lambda n: n.lineno)
+    dv_ = []
+    for n in nodes:
+        if isinstance(n, ast.Assign) and isinstance(n.targets[0], ast.Name):
+            v = through_alias(n.value)
+            if isinstance(v, ast.Call) and norm(v.func) == "getattr" and len(v.args) == 2 and norm(v.args[0]) == "self" and norm(v.args[1]) == PN:
+                dv_.append(n.targets[0].id)
+    # the alias itself also matches; the property's local is the one that is re-assigned / tested later: prefer the last in the alias chain
+    need(dv_, "anchor lost: <dim> = getattr(self, name) in init_mapped_dim")
+    DIM = dv_[-1]
+    nv_ = []
+    for n in nodes:
+        if isinstance(n, ast.Assign) and isinstance(n.targets[0], ast.Name):
+            v = through_alias(n.value)
+            if isinstance(v, ast.Call) and isinstance(v.func, ast.Attribute) and v.func.attr == "join" and v.args and norm(v.args[0]) == DIM and n.targets[0].id != DIM:
+                nv_.append(n.targets[0].id)
+    need(nv_, "anchor lost: the fused name `', '.join(<dim>)` in init_mapped_dim")
+    return DIM, nv_[-1], PN
+
+
 def c18_structure_rules(ctx):
     from ..pathcond import path_tests, Truth, _reassigned_between
     prog = ctx.prog
@@ -1507,7 +1542,7 @@ def c18_structure_rules(ctx):
     defs = [(n, v) for n, v in assignments_to(pl, xname.id) if v is not None]
     need(len(defs) >= 1, "anchor lost: definitions of %s in plot_lines" % xname.id)
     locals_ = {nm: v for nm in {x.id for x in ast.walk(pl.node) if isinstance(x, ast.Name)} for d_ in [single_def(pl, nm)] if d_ is not None for v in [d_[1]]}
-    T = Truth({"X": ["self.x in self.ds.data_vars"]}, defs=locals_)
+    T = Truth({"X": ["self.x in self.ds.data_vars"]}, fi=pl, auto=True)
     slice_names = {nm for nm, v in locals_.items() if ".isel(" in norm(v) or ".sel(" in norm(v)}
     local_ok = {False: False, True: False}
     for n, v in defs:
@@ -1516,7 +1551,7 @@ def c18_structure_rules(ctx):
         is_global = not is_local and "self.ds" in txt
         need(is_local or is_global, "idiom changed: x values `%s = %s`" % (xname.id, txt))
         tests = path_tests(pl.node, n.ast)
-        f = T.conj(tests)
+        f = T.reach(tests)
         for X in (False, True):
             reach = f({"X": X})
             if is_global and reach and X:
@@ -1524,7 +1559,7 @@ def c18_structure_rules(ctx):
             if is_local and reach:
                 local_ok[X] = True
         r13.ok("%s = %s reached %s" % (xname.id, txt[:50], "only when x is a coordinate" if is_global else "when x is a data variable"))
-    glob_reach_false = any(T.conj(path_tests(pl.node, n.ast))({"X": False}) for n, v in defs)
+    glob_reach_false = any(T.reach(path_tests(pl.node, n.ast))({"X": False}) for n, v in defs)
     if not local_ok[True] and not r13.findings:
         r13.bad(ctx.finding("C18.R13", pl, plots_[0], "when x is a data variable no definition of `%s` is reached before ax.plot: the slice's x values are never selected" % xname.id, construct="x-slice-missing"), "x per slice reached")
     elif not glob_reach_false:
@@ -1597,15 +1632,15 @@ def c18_structure_rules(ctx):
     r16 = ctx.rule("C18.R16", "init_mapped_dim: fused names are stacked iff all components are dimensions; a value that is no dimension is a constant style (size 1, attribute reset); a dimension is mapped (domains, values); every path records the attribute", floor=6)
     g = build_cfg(imd.node)
     nodes = list(walk_shallow(imd.node))
-    atoms = {"T": ["isinstance(dim, tuple)"], "A": ["new_dim in self.ds.dims"], "B": ["all((x in self.ds.dims for x in dim))"],
-             "N": ["dim is None"], "D": ["dim in self.ds.dims"], "C": ["custom_values is None"], "V": ["default_values is None"],
-             "H": ["self.is_heatmap and name in _HEATMAP_INVALID_KWARGS"], "O": ["order is None"], "L": ["isinstance(dim, list)"],
-             "K": ["callable(default_values)"], "TL": ["dim_ticklabels is None"], "TD": ["isinstance(dim_ticklabels, dict)"], "DL": ["dim_label is None"]}
-    TT = Truth(atoms)
+    # the local that holds the property's value, and the local that holds the fused name
+    DIM, NEW, PN = _imd_names(imd)
+    atoms = {"T": ["isinstance(%s, tuple)" % DIM], "A": ["%s in self.ds.dims" % NEW], "B": ["all((x in self.ds.dims for x in %s))" % DIM, "all([x in self.ds.dims for x in %s])" % DIM],
+             "N": ["%s is None" % DIM], "D": ["%s in self.ds.dims" % DIM], "C": ["custom_values is None"], "V": ["default_values is None"]}
+    TT = Truth(atoms, fi=imd, auto=True)
     names = sorted(atoms)
 
     def cond_of(node):
-        f_ = TT.conj(path_tests(imd.node, node))
+        f_ = TT.reach(path_tests(imd.node, node))
         return lambda **kw: f_({**{a: False for a in names}, **kw})
 
     def vals(**fixed):
@@ -1632,8 +1667,8 @@ def c18_structure_rules(ctx):
         r16.bad(ctx.finding("C18.R16", imd, stacks[0], "the dataset is %sstacked when the property is %sa tuple, the fused name is %salready a dimension and %s components are dimensions" % ("" if c(**v) else "not ", "" if v["T"] else "not ", "" if v["A"] else "not ", "all" if v["B"] else "not all"), construct="fused-stack-condition"), "stack condition")
     else:
         r16.ok("stacked iff a tuple, not yet fused, all components are dimensions")
-    rebinds = [n for n in nodes if isinstance(n, ast.Assign) and norm(n.targets[0]) == "dim" and norm(n.value) == "new_dim"]
-    need(rebinds, "anchor lost: dim = new_dim in init_mapped_dim")
+    rebinds = [n for n in nodes if isinstance(n, ast.Assign) and norm(n.targets[0]) == DIM and norm(n.value) == NEW]
+    need(rebinds, "anchor lost: <dim> = <fused name> in init_mapped_dim")
     cs = [cond_of(n) for n in rebinds]
     bad = [v for v in vals() if any(c_(**v) for c_ in cs) != (v["T"] and (v["A"] or v["B"]))]
     if bad:
@@ -1642,7 +1677,7 @@ def c18_structure_rules(ctx):
     else:
         r16.ok("dim = fused name iff the fused dimension exists or was just created")
     # constant branch
-    consts_ = [n for n in nodes if isinstance(n, ast.Assign) and norm(n.targets[0]) == "self.base_style[name]"]
+    consts_ = [n for n in nodes if isinstance(n, ast.Assign) and norm(n.targets[0]) == "self.base_style[%s]" % PN]
     need(len(consts_) == 1, "anchor lost: self.base_style[name] = dim")
     c = cond_of(consts_[0])
     bad = [v for v in vals(T=False, A=False, B=False) if c(**v) != ((not v["N"]) and (not v["D"]))]
@@ -1652,7 +1687,7 @@ def c18_structure_rules(ctx):
     else:
         r16.ok("constant style iff the value is given and is no dimension")
     # mapped branch
-    doms = [n for n in nodes if isinstance(n, ast.Assign) and norm(n.targets[0]) == "self.domains[name]"]
+    doms = [n for n in nodes if isinstance(n, ast.Assign) and norm(n.targets[0]) == "self.domains[%s]" % PN]
     need(len(doms) == 1, "anchor lost: self.domains[name]")
     c = cond_of(doms[0])
     bad = [v for v in vals(T=False, A=False, B=False) if c(**v) != ((not v["N"]) and v["D"])]
@@ -1663,12 +1698,12 @@ def c18_structure_rules(ctx):
         r16.ok("coordinates recorded iff the value is a dimension")
     # sizes
     for n in nodes:
-        if isinstance(n, ast.Assign) and norm(n.targets[0]) == "self.sizes[name]":
+        if isinstance(n, ast.Assign) and norm(n.targets[0]) == "self.sizes[%s]" % PN:
             c = cond_of(n)
             mapped = any(c(**v) and (not v["N"]) and v["D"] for v in vals(T=False, A=False, B=False))
             vtxt = norm(n.value)
             if mapped:
-                if vtxt != "len(self.domains[name])" and _exp_local(imd, n.value) not in ("len(self.domains[name])", "len(%s)" % _exp_local(imd, doms[0].value)):
+                if vtxt != "len(self.domains[%s])" % PN and _exp_local(imd, n.value) not in ("len(self.domains[%s])" % PN, "len(%s)" % _exp_local(imd, doms[0].value)):
                     if isinstance(n.value, ast.Constant):
                         r16.bad(ctx.finding("C18.R16", imd, n, "a mapped dimension is given the constant size %s" % vtxt, construct="size-mapped"), "size mapped")
                     else:
@@ -1682,7 +1717,7 @@ def c18_structure_rules(ctx):
             else:
                 raise AnalysisError("idiom changed: size of an unmapped property = %s" % vtxt)
     # every normal path records the attribute
-    sets_ = [n for n in g.nodes if any(norm(c_.func) == "setattr" and len(c_.args) == 3 and norm(c_.args[0]) == "self" and norm(c_.args[1]) == "name" for c_ in node_calls(n))]
+    sets_ = [n for n in g.nodes if any(norm(c_.func) == "setattr" and len(c_.args) == 3 and norm(c_.args[0]) == "self" and norm(c_.args[1]) == PN for c_ in node_calls(n))]
     if not sets_:
         r16.bad(ctx.finding("C18.R16", imd, imd.node, "init_mapped_dim never records the resolved property (setattr(self, name, ...)): fused tuples / constant styles stay in the attribute the drawing code keys `loc` with", construct="attr-not-recorded"), "attribute recorded")
     else:
@@ -1699,12 +1734,12 @@ def c18_structure_rules(ctx):
                     vt = norm(c_.args[2])
                     if in_const and vt != "None":
                         r16.bad(ctx.finding("C18.R16", imd, c_, "a constant style value is recorded as the mapped dimension (`%s`)" % vt, construct="attr-constant"), "attribute constant")
-                    elif not in_const and vt != "dim":
+                    elif not in_const and vt != DIM:
                         raise AnalysisError("idiom changed: setattr(self, name, %s)" % vt)
                     else:
                         r16.ok("setattr(self, name, %s) %s" % (vt, "in the constant branch" if in_const else "otherwise"))
     # values
-    vs = [n for n in nodes if isinstance(n, ast.Assign) and norm(n.targets[0]) == "self.values[name]"]
+    vs = [n for n in nodes if isinstance(n, ast.Assign) and norm(n.targets[0]) == "self.values[%s]" % PN]
     need(vs, "anchor lost: self.values[name]")
     covered = {}
     for n in vs:
